@@ -31,10 +31,10 @@ type injection struct {
 	Decls    string // extra declarations (referenced functions)
 	SrcField string
 	DstField string
-	File     string // whole-file form: name of the form
+	File     string   // whole-file form: name of the form
 	Args     []string // command line instead of the plain `setup.go`
-	Solo     bool   // cannot be combined with another injection (the form has no method body to inject into)
-	NoVet    bool   // the input does not type-check on purpose
+	Solo     bool     // cannot be combined with another injection (the form has no method body to inject into)
+	NoVet    bool     // the input does not type-check on purpose
 }
 
 func injCatalogue(seed int64, nSoup int) []injection {
